@@ -2735,16 +2735,16 @@ impl Monitor for C09 {
             ("fold", FOLD_CASES),
             // (length 0..=70) x (alignment 0..7) x (7 contents) [x repetitions with other random parts]
             ("helper_exh", EXH_LENS * EXH_ALIGNS * PATTERNS * tier.pick(2, 12)),
-            ("helper_rand", tier.pick(200_000, 2_000_000)),
-            ("ipv4", tier.pick(1_200_000, 12_000_000)),
-            ("udp", tier.pick(1_000_000, 10_000_000)),
-            ("tcp", tier.pick(800_000, 8_000_000)),
-            ("icmpv4", tier.pick(800_000, 8_000_000)),
-            ("icmpv6", tier.pick(640_000, 6_400_000)),
-            ("icmpv6_valid", tier.pick(1_200_000, 12_000_000)),
-            ("igmp", tier.pick(600_000, 6_000_000)),
-            ("transport", tier.pick(800_000, 8_000_000)),
-            ("builder", tier.pick(1_000_000, 10_000_000)),
+            ("helper_rand", tier.pick(200_000, 12_000_000)),
+            ("ipv4", tier.pick(1_200_000, 72_000_000)),
+            ("udp", tier.pick(1_000_000, 60_000_000)),
+            ("tcp", tier.pick(800_000, 48_000_000)),
+            ("icmpv4", tier.pick(800_000, 48_000_000)),
+            ("icmpv6", tier.pick(640_000, 38_400_000)),
+            ("icmpv6_valid", tier.pick(1_200_000, 72_000_000)),
+            ("igmp", tier.pick(600_000, 36_000_000)),
+            ("transport", tier.pick(800_000, 48_000_000)),
+            ("builder", tier.pick(1_000_000, 60_000_000)),
         ]
     }
 
